@@ -4,6 +4,7 @@ Executable check of `Prepared.WF` (Arca/Proofs/LoopDag.lean) on a REAL prepared 
 for the Prepare model it is the theorem `prepare_inv` of C10).
 -/
 import Arca.Model.RunLoop
+import Arca.Model.LoopCheck
 
 namespace Arca.Driver
 open Arca.Model
@@ -79,6 +80,13 @@ def wfViolations (P : Prepared) : List String := Id.run do
         if (lookup oid P.items).isNone then bad := ("output_nodes.missing:" ++ oid) :: bad
         if !((g.edges.filter (fun e => e.2.1 == oid)).all (fun e => e.1 == stageNodeId step stage && e.2.2 == .and)) then
           bad := ("output_nodes.edges:" ++ oid) :: bad
+  -- `Prepared.WF3` (Arca/Proofs/LoopComplete.lean; contains `WF2` and `WF`), the well-formedness hypothesis of the
+  -- completeness theorems C01 `quiescent_run_has_verdict`, C03 `producible_output_is_returned`,
+  -- `no_producible_output_gives_error`: decided clause by clause by `Prepared.wf3Clauses` (Arca/Model/LoopCheck.lean),
+  -- whose soundness is a theorem (`Prepared.WF3OK.sound`, Arca/Proofs/LoopCheckSound.lean): no violated clause here
+  -- means that `P.WF3` HOLDS of this real prepared workflow
+  for c in P.wf3Violated do
+    bad := ("wf3:" ++ c) :: bad
   return bad.reverse
 
 /-- executable version of `LegalEvent` (Arca/Proofs/LoopSafe.lean): the provider contract for one callback -/
@@ -107,5 +115,65 @@ def legalEvent (P : Prepared) (s : LoopState) (e : Event) : Bool :=
     (P.outputsOf step stage).all (fun o => st (outputNodeId step stage o) != some .resolved)
   | .tick _ _ => true
   | .drain => true
+
+/-! ### the completeness theorems (C01 `quiescent_run_has_verdict`, C03 `producible_output_is_returned`,
+`no_producible_output_gives_error`) on a real history -/
+
+/-- the history hypotheses of `quiescent_run_has_verdict`: the history starts with `start` and the completion callback
+of every step that declares a stage has been delivered (legality of every event is counted separately: `legalEvent`) -/
+def quiescentHistory (P : Prepared) (events : List Event) : Bool :=
+  match events with
+  | .start _ :: rest =>
+    P.stages.all (fun p => p.2.isEmpty || rest.any (fun e => match e with
+      | .stepComplete step _ _ _ => step == p.1
+      | _ => false))
+  | _ => false
+
+def isOutputItem (P : Prepared) (id : String) : Bool :=
+  match lookup id P.items with
+  | some it => it.kind == .output
+  | none => false
+
+/-- executable `Producible` (Arca/Proofs/LoopComplete.lean) -/
+def producible (P : Prepared) (g : Graph String) (o : String) : Bool :=
+  let into := P.dag.edges.filter (fun ed => ed.2.1 == o)
+  into.all (fun ed => ed.2.2 != .and || g.statusOf ed.1 == some .resolved) &&
+  (!(into.any (fun ed => ed.2.2 == .or)) || into.any (fun ed => ed.2.2 == .or && g.statusOf ed.1 == some .resolved))
+
+/-- what the three completeness theorems conclude about the canonical model run `(s, acts)` of a legal history that
+starts with `start` (`complete` = every step completed); returns the names of the conclusions that do NOT hold (a
+non-empty result contradicts a machine-checked theorem: the driver and the theorem would disagree on a definition) -/
+def completenessViolations (P : Prepared) (s : LoopState) (acts : List Action) (complete : Bool) : List String := Id.run do
+  let mut bad : List String := []
+  let isEF (a : Action) : Bool := match a with
+    | .errorSent .evalFailed => true
+    | .errorDropped .evalFailed => true
+    | _ => false
+  let isNMO (a : Action) : Bool := match a with
+    | .errorSent .noMoreOutputs => true
+    | .errorDropped .noMoreOutputs => true
+    | _ => false
+  let hasOut := acts.any (fun a => match a with
+    | .output _ _ => true
+    | _ => false)
+  let ef := acts.any isEF
+  let nmo := (acts.filter isNMO).length
+  let outs := (P.items.filter (fun p => p.2.kind == .output)).map (·.1)
+  if s.dead then bad := "alive" :: bad
+  if complete && !(hasOut && s.result.isSome || nmo > 0 || ef) then bad := "quiescent_run_has_verdict" :: bad
+  if !ef then
+    if outs.all (fun o => s.dag.statusOf o == some .unres) && !(nmo == 1 && s.result.isNone && !hasOut) then
+      bad := "no_producible_output_gives_error" :: bad
+    if complete then
+      let prod := outs.filter (producible P s.dag)
+      if !prod.isEmpty && s.result.isNone then bad := "producible_output_is_returned" :: bad
+      if prod.isEmpty && !(nmo == 1 && s.result.isNone) then bad := "nothing_producible_gives_error" :: bad
+      match prod, s.result with
+      | [o], some (oid, _) =>
+        match lookup o P.items with
+        | some it => if it.output != oid then bad := "producible_output_is_returned.unique" :: bad
+        | none => pure ()
+      | _, _ => pure ()
+  return bad.reverse
 
 end Arca.Driver
